@@ -22,7 +22,11 @@ RULE = ('small grammars: terminals a,b; nonterminals S (start), A; 1..3 producti
         '(12383 grammars, epsilon productions included); quick tier: all grammars with <= 2 productions in the '
         'oracle search and a seeded sample in coqc, thorough tier: all; every word of length <= 4 over {a,b} is '
         'parsed. real grammars: layout parser grammar and the assembler grammars the LR builder accepts; sentences '
-        'are random derivations (depth-bounded) plus single-token mutations. distinct non-trivial = (grammar, word) '
+        'are random derivations (depth-bounded) plus single-token mutations. larger random grammars: seeded, 3-5 '
+        'nonterminals, 4-8 productions, rhs <= 3 over 2-3 terminals with planted nullable chains, nullable symbols '
+        'before terminals and left/right recursion, kept when the real builder reports and resolves no conflict '
+        '(150 quick / 1000 thorough): builder model vs real tables, validator, all words <= 4-5 vs brute-force '
+        'derivability oracle. distinct non-trivial = (grammar, word) '
         'pairs whose grammar built without error and whose word is non-empty')
 EXPLANATION = ('c32_sound is unbounded over grammars, tables and inputs but speaks about the parser MODEL on tables '
                'that pass the validator; the tie to the code is (1) per-run validation of the real tables in coqc, '
@@ -156,6 +160,11 @@ def renumber(action_table, goto_table, sym_order):
             if q is not None and q not in ren:
                 ren[q] = len(ren)
     return ren
+
+
+def coq_nodup(lst):
+    """order of Coq's List.nodup (keeps the last occurrence) = Model.LrBuilder.nonterminals"""
+    return [x for i, x in enumerate(lst) if x not in lst[i + 1:]]
 
 
 def coq_tables(action_table, goto_table, num, ren=None):
@@ -388,6 +397,154 @@ def search(ctx, deep=None):
         n += check_grammar_against_oracle(ctx, FAM_T, prods, 'S', FAM_NUM, words, gname(prods), lang=lang)
     ctx.cov['stages']['oracle_search'] = {'grammars': len(todo), 'parses': n, 'deep': deep}
     ctx.cov['evaluations'] += n
+    n += search_random(ctx, deep)
+    return n
+
+
+# ---------------------------------------------------------------- larger random grammars (planted nullable chains)
+RG_T = ['x', 'y', 'z']
+RG_N = ['S', 'A', 'B', 'C', 'D']
+RG_NUM = {'EOF': 0, 'EPS': 1, 'x': 2, 'y': 3, 'z': 4, 'S': 5, 'A': 6, 'B': 7, 'C': 8, 'D': 9}
+_RG_CACHE = {}
+
+
+def _rand_grammar(rng):
+    """3-5 nonterminals, 4-8 productions, rhs <= 3; planted: nullable chains (A -> B, B -> eps, C -> A B),
+    nullable symbols before terminals, left/right recursion; production order shuffled"""
+    nn = rng.randrange(3, 6)
+    nts = RG_N[:nn]
+    terms = RG_T[:rng.randrange(2, 4)]
+    others = nts[1:]
+    rng.shuffle(others)
+    prods = []
+    t = lambda: rng.choice(terms)   # noqa: E731
+    # nullable chain over `others`
+    chain = others[:rng.randrange(1, len(others) + 1)]
+    prods.append((chain[-1], ()))
+    for a, b in zip(chain, chain[1:]):
+        k = rng.randrange(4)
+        prods.append((a, (b,)) if k < 2 else ((a, (b, chain[-1])) if k == 2 else (a, (b, t()))))
+    if rng.random() < 0.5:
+        prods.append((chain[-1], (t(),)))
+    rest = [n for n in others if n not in chain]
+    for n in rest:   # recursion / plain
+        k = rng.randrange(4)
+        x = t()
+        if k == 0:
+            prods += [(n, (n, x)), (n, (t(),))]
+        elif k == 1:
+            prods += [(n, (x, n)), (n, (t(),))]
+        elif k == 2:
+            prods += [(n, (x, rng.choice(chain)))]
+        else:
+            prods += [(n, (x,))]
+    # start productions: nullable symbols before terminals, mixtures
+    pool = others
+    k = rng.randrange(5)
+    if k == 0:
+        prods.append(('S', (chain[0], t())))
+    elif k == 1:
+        prods.append(('S', (chain[-1], rng.choice(pool), t())))
+    elif k == 2:
+        prods.append(('S', (rng.choice(pool), rng.choice(pool))))
+    elif k == 3:
+        prods += [('S', (t(), 'S')), ('S', (chain[0], t()))]
+    else:
+        prods += [('S', ('S', t())), ('S', (rng.choice(pool),))]
+    if len(others) >= 2 and rng.random() < 0.5:   # T -> B S shape: nullable in front of a nonterminal that starts with a nullable
+        a = rng.choice(others)
+        prods.append((a, (chain[0], t()))) if (a, (chain[0], t())) not in prods else None
+    while len(prods) < 4 or (len(prods) < 8 and rng.random() < 0.35):
+        l = rng.choice(nts)
+        r = tuple(rng.choice(nts + terms + terms) for _ in range(rng.randrange(1, 4)))
+        prods.append((l, r))
+    prods = prods[:8]
+    seen, out = set(), []
+    for pr in prods:
+        if pr not in seen:
+            seen.add(pr)
+            out.append(pr)
+    rng.shuffle(out)
+    have = {l for l, _ in out}
+    used = {x for _, r in out for x in r if x in RG_N} | {'S'}
+    for n in sorted(used - have):
+        out.append((n, (t(),)))
+    return terms, out
+
+
+def random_grammars(seed, count):
+    """seeded list of (terms, prods, real_build result) the real builder accepts without any conflict"""
+    key = (seed, count)
+    if key in _RG_CACHE:
+        return _RG_CACHE[key]
+    import random
+    rng = random.Random(1000003 * seed + 32)
+    out, tries, seen = [], 0, set()
+    while len(out) < count and tries < count * 60:
+        tries += 1
+        terms, prods = _rand_grammar(rng)
+        sig = (tuple(terms), tuple(prods))
+        if sig in seen:
+            continue
+        seen.add(sig)
+        b = real_build(make_grammar(terms, prods, 'S', RG_NUM))
+        if b[0] == 'ok' and not b[4]:
+            out.append((terms, prods, b))
+    _RG_CACHE[key] = (out, tries)
+    return _RG_CACHE[key]
+
+
+def ref_first_sets(terms, prods):
+    """independent FIRST / nullable by the textbook definition"""
+    nts = {l for l, _ in prods}
+    nullable, first = set(), {n: set() for n in nts}
+    ch = True
+    while ch:
+        ch = False
+        for l, r in prods:
+            if l not in nullable and all(x in nullable for x in r):
+                nullable.add(l)
+                ch = True
+            for x in r:
+                add = first[x] if x in nts else {x}
+                if not add <= first[l]:
+                    first[l] |= add
+                    ch = True
+                if x not in nullable:
+                    break
+    return first, nullable
+
+
+def check_first_sets(ctx, terms, prods):
+    """real calculate_first_sets vs the textbook definition (diagnostic: internal representation)"""
+    lr = _mods()[0]
+    try:
+        real = lr.calculate_first_sets(make_grammar(terms, prods, 'S', RG_NUM))
+    except Exception:   # noqa: BLE001
+        return None
+    first, nullable = ref_first_sets(set(terms), prods)
+    for n in first:
+        if set(real.get(n, ())) - {'EPS'} != first[n] or (('EPS' in real.get(n, ())) != (n in nullable)):
+            return False
+    return True
+
+
+def search_random(ctx, deep):
+    count = 1000 if deep else 150
+    gl, tries = random_grammars(ctx.seed, count)
+    n, nfirst_bad = 0, 0
+    for terms, prods, _ in gl:
+        maxlen = 5 if len(terms) <= 2 else 4
+        words = words_upto(terms, maxlen)
+        lang = derivable_words(set(terms), prods, maxlen).get('S', set())
+        n += check_grammar_against_oracle(ctx, terms, prods, 'S', RG_NUM, words, gname(prods), lang=lang)
+        if check_first_sets(ctx, terms, prods) is False:
+            nfirst_bad += 1
+            if nfirst_bad == 1:
+                ctx.log('calculate_first_sets differs from the textbook FIRST/nullable sets on', gname(prods))
+    ctx.cov['stages']['random_grammar_search'] = {'grammars': len(gl), 'generated': tries, 'parses': n,
+                                                  'first_sets_differ': nfirst_bad}
+    ctx.cov['evaluations'] += n
     return n
 
 
@@ -495,10 +652,7 @@ def regen(ctx):
     for k, prods in enumerate(sample):
         g = make_grammar(FAM_T, prods, 'S', FAM_NUM)
         b = real_build(g)
-        nts = []
-        for l, _ in prods:
-            if l not in nts:
-                nts.append(l)
+        nts = coq_nodup([l for l, _ in prods])
         ent = {'k': k, 'prods': prods, 'build': b[0]}
         lines.append('Definition g%d : grammar := %s.' % (k, coq_grammar(FAM_T, prods, 'S', FAM_NUM)))
         if b[0] == 'ok':
@@ -507,6 +661,16 @@ def regen(ctx):
             ent['sr'] = b[4]
             ent['parses'] = [real_parse(b[1], w) for w in words]
         exp['family'].append(ent)
+    exp['random'] = []
+    rg, _ = random_grammars(ctx.seed, 150 if ctx.quick() else 1000)
+    for k, (terms, prods, b) in enumerate(rg[:150 if ctx.quick() else 400]):
+        nts = coq_nodup([l for l, _ in prods])
+        ws = words_upto(terms, 4 if len(terms) <= 2 else 3)
+        ren = renumber(b[2], b[3], nts + terms)
+        lines.append('Definition gr%d : grammar := %s.' % (k, coq_grammar(terms, prods, 'S', RG_NUM)))
+        lines.append('Definition Tr%d : tables := %s.' % (k, coq_tables(b[2], b[3], RG_NUM, ren)))
+        exp['random'].append({'k': k, 'terms': terms, 'prods': prods, 'words': ws,
+                              'parses': [real_parse(b[1], w) for w in ws]})
     for (nm, terms, prods, start) in real_grammars(ctx):
         num = numbering(terms, prods)
         g = make_grammar(terms, prods, start, num)
@@ -586,6 +750,20 @@ def run(ctx):
                 dist['family_builder_error'] += 1
                 cases.append(('build_matches FXF 200 g%d None' % k, True))
                 recs.append(('builder', ent, None))
+        for ent in exp.get('random', []):
+            k = ent['k']
+            cases.append(('build_matches FXF 600 gr%d (Some (Tr%d, false))' % (k, k), True))
+            recs.append(('builder', ent, None))
+            cases.append(('tables_ok FXA gr%d Tr%d' % (k, k), True))
+            recs.append(('validator', ent, None))
+            cases.append(('map (parse_model FXA 400 gr%d Tr%d) [%s]' % (k, k, '; '.join(
+                '[%s]' % '; '.join(str(RG_NUM[t]) for t in w) for w in ent['words'])), ent['parses']))
+            recs.append(('parser', ent, None))
+            for w, r in zip(ent['words'], ent['parses']):
+                dist['accepted' if isinstance(r, OkV) else ('rejected' if r is Diag else 'internal')] += 1
+                if isinstance(r, OkV) and w:
+                    ctx.cov['distinct_nontrivial'] += 1
+        dist['random_grammars'] = len(exp.get('random', []))
         for ent in exp['real']:
             if ent['build'] != 'ok':
                 ctx.log('real grammar', ent['name'], 'is rejected by the LR builder:', ent['build'])
@@ -619,7 +797,7 @@ def run(ctx):
                     kind, ent, s = recs[i]
                     if kind != 'validator':
                         continue
-                    if 'name' in ent or not explain_rejection(ctx, ent):
+                    if 'name' in ent or 'terms' in ent or not explain_rejection(ctx, ent):
                         left.append((ent.get('name') or gname(ent['prods']), s))
                 ctx.cov['stages']['validator_rejections_explained'] = len(kinds['validator']) - len(left)
                 if left:
